@@ -44,7 +44,7 @@ package enterprise
 //@   requires forall i int :: {ent_store[kPO(i)]} {ent_store[kRaised(i)]} {ent_store[kAccepted(i)]} !poHas(ent_store, i) && !raisedHas(ent_store, i) && !acceptedHas(ent_store, i)
 //@   requires forall i int, j int :: {data.PurchaseOrders[i], data.PurchaseOrders[j]} 0 <= i && i < j && j < len(data.PurchaseOrders) ==> data.PurchaseOrders[i].Id != data.PurchaseOrders[j].Id
 //@   requires forall j int :: {data.PurchaseOrders[j]} 0 <= j && j < len(data.PurchaseOrders) ==> data.PurchaseOrders[j].Id < data.StartingPurchaseOrderId
-//@   requires forall a `BytesV` :: {ent_store[kLocked(a)]} {ent_store[kSpent(a)]} !lockedHas(ent_store, a) && !spentHas(ent_store, a)
+//@   requires emptyBooks(ent_store)
 //@   requires !entParamsSet(ent_store) && validDenom(data.Params.Denom)
 //@   requires forall a `BytesV` :: {ent_store[kWhitelist(a)]} !wlHas(ent_store, a)
 //@   requires !isnil(data.TotalLocked.Amount) && 0 <= Amt(data.TotalLocked) && Amt(data.TotalLocked) < P255 && data.TotalLocked.Denom == data.Params.Denom
